@@ -144,6 +144,17 @@ CHECKS = {
              "blocked (eventual, cond, self-suspend, mutex) when the call was issued; stream TERMINATED afterwards; the blocked "
              "counter equalled the number of blocked units at quiescence, was 0 afterwards and never sampled negative",
         ref="DESIGN.md §5 C06"),
+    "C11": dict(
+        technique="runtime monitoring: resume-credit accounting and a running-instance counter for suspend/resume racing "
+                  "with resumers on other streams; expectation posting (next unit on the stream, caller state) checked by "
+                  "whichever code runs next for every directed switch in random chains; delay injection at the "
+                  "suspend/resume windows; ASan/TSan builds",
+        category="exploration",
+        text="held on the executions produced: tens of thousands of suspend/resume round trips with the resume issued the "
+             "moment BLOCKED is observable (no run without resume, exactly one run per resume, never two running instances) "
+             "and tens of thousands of directed switches of all nine kinds with fresh and started targets in same/other "
+             "pools, each followed by exactly the named ULT with the caller READY/BLOCKED/TERMINATED as documented",
+        ref="DESIGN.md §5 C11"),
 }
 
 
